@@ -669,6 +669,8 @@ class VerifyMixin:
         self.user_call_hooks = hooks
         self.at_call_hooks = [(ck, self._mk_call_hook(key, ck, label, expr, prop, spec_env, old))
                               for ck, label, expr, prop in getattr(c, "at_call_", [])]
+        for ck, paths, guar, _tag in getattr(c, "yield_at_", []):
+            self.at_call_hooks.append((ck, self._mk_yield_hook(paths, guar, spec_env, old)))
         outs = self.exec_block(fnode.body, s)
         self.user_call_hooks = []
         self.at_call_hooks = []
@@ -688,6 +690,15 @@ class VerifyMixin:
                 src = "@" + ast.unparse(node.func)
             engine.prove(st, g, f"{key}:at-user-call/{label}{src}", prop=engine.prop_of(prop),
                          kind="user-call", site=engine.site(node))
+        return hook
+
+    def _mk_yield_hook(self, paths, guarantee, env, old):
+        def hook(engine, cenv, st, node):
+            for p_ in paths:
+                engine.havoc_path(p_, st, env)
+            if guarantee:
+                st.assume(engine.spec_eval(guarantee, st, dict(env), old=old, mode="hyp"))
+            engine.abstractions.add("interference at declared yield points (time.sleep in polling loops): the shared state named there is havocked")
         return hook
 
     def _mk_call_hook(self, key, callee_key, label, expr, prop, env, old):
@@ -760,7 +771,13 @@ class VerifyMixin:
                 mod, name = path[5:].rsplit(".", 1)
                 globs.add((mod, name))
             elif path.startswith("contents("):
-                v = self.spec_value(path[9:-1], old.clone(), env, old=old)
+                try:
+                    v = self.spec_value(path[9:-1], old.clone(), env, old=old)
+                except EngineError:
+                    self._havoc_mod = key.split(":")[0]
+                    v = self._none_owner(path[9:-1], old.clone(), env)
+                if isinstance(v, VNone):
+                    continue
                 if isinstance(v, VRef) and isinstance(v.T, ty.Map):
                     allowed_maps.setdefault(v.T.cls, []).append(v.t)
                 elif isinstance(v, VRef) and isinstance(v.T, ty.Lst):
@@ -769,7 +786,13 @@ class VerifyMixin:
                     raise EngineError(f"modifies {path}: not a container")
             else:
                 objx, field = path.rsplit(".", 1)
-                v = self.spec_value(objx, old.clone(), env, old=old)
+                try:
+                    v = self.spec_value(objx, old.clone(), env, old=old)
+                except EngineError:
+                    self._havoc_mod = key.split(":")[0]
+                    v = self._none_owner(objx, old.clone(), env)
+                if isinstance(v, VNone):
+                    continue
                 if not isinstance(v, VRef):
                     raise EngineError(f"modifies {path}: {v!r} is not a reference")
                 owner, T = self.schema.field(v.cls, field)
